@@ -237,12 +237,17 @@ class Model:
         succ_var = None
         inline_search = None
         for st in ieb.node.body:
-            if isinstance(st, ast.Assign) and isinstance(st.value, ast.Call):
-                d = dotted(st.value.func)
-                if d == "self.first_child_found_in" and len(st.targets) == 1 and isinstance(st.targets[0], ast.Name):
-                    if st.value.args and isinstance(st.value.args[0], ast.Starred) and \
-                            dotted(st.value.args[0].value) == varargs:
-                        succ_var = st.targets[0].id
+            if isinstance(st, ast.Assign) and isinstance(st.value, ast.Call) and len(st.targets) == 1 and isinstance(st.targets[0], ast.Name):
+                d = dotted(st.value.func) or ""
+                if d.startswith("self.") and d.count(".") == 1 and len(st.value.args) == 1:
+                    a0 = st.value.args[0]
+                    passes = (isinstance(a0, ast.Starred) and dotted(a0.value) == varargs) or dotted(a0) == varargs
+                    helper = base.methods.get(d.split(".")[1])
+                    if passes and helper is not None:
+                        hs = self._classify_search(helper.node)
+                        if hs is not None:
+                            search = hs
+                            succ_var = st.targets[0].id
         if succ_var is None:
             inline_search = self._classify_search(ieb.node, allow_inline=True)
             if inline_search:
@@ -319,15 +324,16 @@ class Model:
         # adder: new -> setattr* -> insert ; returns child
         node, fi = inner("_BaseChildElement", "_add_adder", "_add_child")
         order = []
-        for n in ast.walk(node):
+        for n in ast.walk(_norm_closure(node)):
             if isinstance(n, ast.Call):
                 d = dotted(n.func)
+                dn = _dyn_name(n)
                 if d == "setattr":
-                    order.append(("setattr", n.lineno))
-                elif d == "insert_method":
-                    order.append(("insert", n.lineno))
-                elif d == "new_method":
-                    order.append(("new", n.lineno))
+                    order.append(("setattr", (n.lineno, n.col_offset)))
+                elif d == "insert_method" or dn == "_insert_method_name":
+                    order.append(("insert", (n.lineno, n.col_offset)))
+                elif d == "new_method" or dn == "_new_method_name":
+                    order.append(("new", (n.lineno, n.col_offset)))
         order.sort(key=lambda x: x[1])
         seq = [o[0] for o in order]
         if seq != ["new", "setattr", "insert"]:
@@ -341,7 +347,26 @@ class Model:
                 raise AnalysisError("xmlchemy._add_child: shape not recognised %s" % seq)
         # get_or_add: adds only when the getter returned None
         node, fi = inner("ZeroOrOne", "_add_get_or_adder", "get_or_add_child")
-        if not _add_guarded_by_none_test(node, "add_method"):
+        d_, cps = _closure_paths(node)
+        child_src = None
+        for n_ in ast.walk(d_):
+            if isinstance(n_, ast.Assign) and isinstance(n_.value, ast.Call) and dotted(n_.value.func) == "getattr" \
+                    and dotted(n_.value.args[1]) == "self._prop_name":
+                child_src = n_.targets[0].id
+        bad_add = False
+        adds = 0
+        for fs, calls, pth in cps:
+            known_none = any(a[0] == "none" and a[1] == child_src and a[2] is True for a in fs)
+            if "_add_method_name" in calls:
+                adds += 1
+                if not known_none:
+                    bad_add = True
+            elif known_none:
+                bad_add = True  # absent child and nothing added
+        if child_src is None or adds == 0:
+            if not _add_guarded_by_none_test(node, "add_method"):
+                raise AnalysisError("xmlchemy.get_or_add_child: shape not recognised")
+        elif bad_add:
             P.append(("violation", "%s:%d" % (m.relpath, node.lineno),
                       "get_or_add_child adds a child without first testing that none is present"))
         # remover
@@ -351,26 +376,47 @@ class Model:
             P.append(("violation", "%s:%d" % (m.relpath, node.lineno), "_remove_child does not remove_all(own tag)"))
         # get_or_change_to: getter, early return, remove group, add
         node, fi = inner("Choice", "_add_get_or_change_to_method", "get_or_change_to_child")
-        calls = []
-        for n in ast.walk(node):
-            if isinstance(n, ast.Call) and dotted(n.func) in ("remove_group_method", "add_method"):
-                calls.append((n.lineno, n.col_offset, dotted(n.func)))
-        calls.sort()
-        names = [c[2] for c in calls]
-        if names != ["remove_group_method", "add_method"]:
-            P.append(("violation", "%s:%d" % (m.relpath, node.lineno),
-                      "get_or_change_to_child must remove the whole choice group and then add (found %s)" % names))
-        if not _early_return_when_present(node):
+        d_, cps = _closure_paths(node)
+        child_src = None
+        for n_ in ast.walk(d_):
+            if isinstance(n_, ast.Assign) and isinstance(n_.value, ast.Call) and dotted(n_.value.func) == "getattr" \
+                    and dotted(n_.value.args[1]) == "self._prop_name":
+                child_src = n_.targets[0].id
+        if child_src is None or not cps:
+            raise AnalysisError("xmlchemy.get_or_change_to_child: shape not recognised")
+        present_ok = absent_ok = False
+        wrong = None
+        for fs, calls, pth in cps:
+            if any(a[0] == "none" and a[1] == child_src and a[2] is False for a in fs):
+                if calls:
+                    wrong = "changes the document although the member is present (%s)" % calls
+                elif pth.end == "return" and dotted(pth.end_node.value) == child_src:
+                    present_ok = True
+            elif any(a[0] == "none" and a[1] == child_src and a[2] is True for a in fs) or not any(a[0] == "none" for a in fs):
+                if calls == ["_remove_group_method_name", "_add_method_name"]:
+                    absent_ok = True
+                else:
+                    wrong = "must remove the whole choice group and then add (found %s)" % calls
+        if wrong:
+            P.append(("violation", "%s:%d" % (m.relpath, node.lineno), "get_or_change_to_child " + wrong))
+        elif not present_ok:
             P.append(("violation", "%s:%d" % (m.relpath, node.lineno),
                       "get_or_change_to_child does not return the existing member unchanged"))
+        elif not absent_ok:
+            raise AnalysisError("xmlchemy.get_or_change_to_child: absent-member path not recognised")
         # group remover covers every member
         node, fi = inner("ZeroOrOneChoice", "_add_group_remover", "_remove_choice_group")
         okc = False
         for n in ast.walk(node):
             if isinstance(n, ast.For) and dotted(n.iter) == "self._member_nsptagnames":
                 for c in ast.walk(n):
-                    if isinstance(c, ast.Call) and isinstance(c.func, ast.Attribute) and c.func.attr == "remove_all":
+                    if isinstance(c, ast.Call) and isinstance(c.func, ast.Attribute) and c.func.attr == "remove_all" \
+                            and c.args and dotted(c.args[0]) == (n.target.id if isinstance(n.target, ast.Name) else None):
                         okc = True
+            # remove_all accepts several tag names: one call with the whole member list
+            if isinstance(n, ast.Call) and isinstance(n.func, ast.Attribute) and n.func.attr == "remove_all" and len(n.args) == 1 \
+                    and isinstance(n.args[0], ast.Starred) and dotted(n.args[0].value) == "self._member_nsptagnames":
+                okc = True
         if not okc:
             P.append(("violation", "%s:%d" % (m.relpath, node.lineno),
                       "_remove_choice_group does not remove_all for every member tag"))
@@ -433,11 +479,25 @@ class Model:
             s = c.methods.get("_setter") if c else None
             if s is None:
                 raise AnalysisError("anchor vanished: xmlchemy.%s._setter" % k)
-            toxml = [n.lineno for n in ast.walk(s.node) if isinstance(n, ast.Call) and
-                     isinstance(n.func, ast.Attribute) and n.func.attr == "to_xml"]
-            sets = [n.lineno for n in ast.walk(s.node) if isinstance(n, ast.Call) and
-                    isinstance(n.func, ast.Attribute) and n.func.attr == "set"]
-            if not toxml or not sets or min(sets) < min(toxml):
+            from .inline import expand
+
+            sx = expand(prog, s)  # helper methods of the descriptor inlined into the closure
+            order_ = []
+            for n in ast.walk(sx):
+                if isinstance(n, ast.Call) and isinstance(n.func, ast.Attribute) and n.func.attr in ("to_xml", "set"):
+                    order_.append(((getattr(n, "lineno", 0), getattr(n, "col_offset", 0)), n.func.attr, n))
+            # the value handed to obj.set must be (an alias of) a to_xml result
+            toxml = [o for o in order_ if o[1] == "to_xml"]
+            sets = [o for o in order_ if o[1] == "set"]
+            conv_names = set()
+            for n in ast.walk(sx):
+                if isinstance(n, ast.Assign) and isinstance(n.value, ast.Call) and isinstance(n.value.func, ast.Attribute) \
+                        and n.value.func.attr == "to_xml" and isinstance(n.targets[0], ast.Name):
+                    conv_names.add(n.targets[0].id)
+            via = all(len(o[2].args) == 2 and ((isinstance(o[2].args[1], ast.Name) and o[2].args[1].id in conv_names) or (
+                isinstance(o[2].args[1], ast.Call) and isinstance(o[2].args[1].func, ast.Attribute) and o[2].args[1].func.attr == "to_xml"))
+                for o in sets)
+            if not toxml or not sets or not via:
                 P.append(("violation", "%s:%d" % (m.relpath, s.line),
                           "%s setter writes the attribute without converting through to_xml first" % k))
 
@@ -447,6 +507,8 @@ class Model:
         loop or as `next((c for c in self if c.tag in names), None)`.  The membership set must be built
         from the function's *tagnames (through qn)."""
         varargs = fnode.args.vararg.arg if fnode.args.vararg else None
+        if varargs is None and len(fnode.args.args) == 2:
+            varargs = fnode.args.args[1].arg  # helper taking the tag names as one sequence parameter
 
         def names_from_varargs(expr):
             # the set tested against must derive from the varargs: directly, or a local assigned from a
@@ -546,6 +608,31 @@ def _calls_in(stmts, recv, meth, arg):
 
 
 def _find_insert_shape(fnode, succ, elm):
+    """Path rule: on every path where `succ` is known to be None the element is appended to self (and addprevious is not
+    called); on every path where it is known not to be None, succ.addprevious(elm) is called (and append is not); every path
+    decides one way or the other."""
+    from .desugar import desugar
+    from .paths import enum_paths, facts
+
+    d = desugar(fnode)
+    pths = [p for p in enum_paths(d.body) if p.end in ("return", "fall")]
+    if pths:
+        ok = True
+        for p in pths:
+            fs = facts(p)
+            is_none = any(a[0] == "none" and a[1] == succ and a[2] is True for a in fs)
+            not_none = any(a[0] == "none" and a[1] == succ and a[2] is False for a in fs) or any(
+                a[0] == "truthy" and a[1] == succ and a[2] is True for a in fs)
+            stm = p.stmts()
+            app = _calls_in(stm, "self", "append", elm)
+            prev = _calls_in(stm, succ, "addprevious", elm)
+            if is_none and app and not prev:
+                continue
+            if not_none and prev and not app:
+                continue
+            ok = False
+        if ok:
+            return "ok"
     for n in ast.walk(fnode):
         if isinstance(n, ast.If):
             if _is_none_test(n.test, succ, True):
@@ -594,3 +681,84 @@ def _early_return_when_present(fnode):
                 and n.test.comparators[0].value is None and any(isinstance(s, ast.Return) for s in n.body):
             return True
     return False
+
+
+# -- normalised view of the generated closures --------------------------------------------------------------------------
+def _norm_closure(fnode):
+    """Desugared copy of a closure in which single-assignment locals bound to `getattr(obj, self._X)` (method lookups by
+    name) are substituted at their uses, so that `m = getattr(obj, self._add_method_name); child = m()` and
+    `child = getattr(obj, self._add_method_name)()` read the same."""
+    import copy
+
+    from .desugar import desugar
+
+    d = desugar(fnode)
+    cnt, val = {}, {}
+    for n in ast.walk(d):
+        if isinstance(n, ast.Assign) and len(n.targets) == 1 and isinstance(n.targets[0], ast.Name):
+            cnt[n.targets[0].id] = cnt.get(n.targets[0].id, 0) + 1
+            val[n.targets[0].id] = n
+    sub = {k: a.value for k, a in val.items() if cnt[k] == 1 and isinstance(a.value, ast.Call) and dotted(a.value.func) == "getattr"
+           and len(a.value.args) == 2 and (dotted(a.value.args[1]) or "").startswith("self._") and (dotted(a.value.args[1]) or "").endswith("_method_name")}
+
+    class T(ast.NodeTransformer):
+        def visit_Name(self, n):
+            if n.id in sub and isinstance(n.ctx, ast.Load):
+                return copy.deepcopy(sub[n.id])
+            return n
+
+        def visit_Assign(self, n):
+            if len(n.targets) == 1 and isinstance(n.targets[0], ast.Name) and n.targets[0].id in sub:
+                return None
+            return self.generic_visit(n)
+
+        def _blk(self, b):
+            out = []
+            for st in b:
+                r = self.visit(st)
+                if r is not None:
+                    out.append(r)
+            return out or [ast.Pass()]
+
+        def generic_visit(self, node):
+            for fld in ("body", "orelse", "finalbody"):
+                b = getattr(node, fld, None)
+                if isinstance(b, list) and b and isinstance(b[0], ast.stmt):
+                    setattr(node, fld, self._blk(b) if fld == "body" else [x for x in (self.visit(st) for st in b) if x is not None])
+            return super().generic_visit(node) if not isinstance(node, (ast.FunctionDef, ast.If, ast.For, ast.While, ast.With, ast.Try)) else node
+
+    T().visit(d)
+    ast.fix_missing_locations(d)
+    return d
+
+
+def _dyn_name(call):
+    """'_add_method_name' for a call `getattr(obj, self._add_method_name)(...)`, else None."""
+    f = call.func
+    if isinstance(f, ast.Call) and dotted(f.func) == "getattr" and len(f.args) == 2:
+        d = dotted(f.args[1]) or ""
+        if d.startswith("self."):
+            return d[5:]
+    return None
+
+
+def _dyn_calls_in(stmts):
+    out = []
+    for st in stmts:
+        for n in ast.walk(st):
+            if isinstance(n, ast.Call) and _dyn_name(n):
+                out.append((getattr(n, "lineno", 0), getattr(n, "col_offset", 0), _dyn_name(n)))
+    return [x[2] for x in sorted(out)]
+
+
+def _closure_paths(fnode):
+    from .paths import enum_paths, facts
+
+    d = _norm_closure(fnode)
+    res = []
+    for p in enum_paths(d.body):
+        if p.end not in ("return", "fall"):
+            continue
+        stm = p.stmts() + ([p.end_node] if p.end_node is not None else [])
+        res.append((facts(p), _dyn_calls_in(stm), p))
+    return d, res
